@@ -25,12 +25,17 @@ fn read_mode(r: WrappedRead, case: &Value) -> WrappedRead {
     }
 }
 
+/// `"len_override"`: `"before"` / `"after"` = `with_len(4)` is applied before / after the working
+/// counter mode is chosen (the builder calls commute).
 fn write_mode(w: WrappedWrite, case: &Value) -> WrappedWrite {
-    match get_str(case, "wkc_mode", "default") {
+    let lo = get_str(case, "len_override", "none");
+    let w = if lo == "before" { w.with_len(4u16) } else { w };
+    let w = match get_str(case, "wkc_mode", "default") {
         "ignore" => w.ignore_wkc(),
         "with" => w.with_wkc(get_u64(case, "with", 1) as u16),
         _ => w,
-    }
+    };
+    if lo == "after" { w.with_len(4u16) } else { w }
 }
 
 /// What an entry point returned, normalised.
